@@ -123,7 +123,7 @@ func genFuzz(r *Rand, n int, thorough bool, emit func(string)) {
 		"u.%(UDIM)d.tif", "{{dir}}{{base}}", "a\nb.1.exr", "\xff\xfe.1#.\x80", "#", "@@@", "-", ",", ".", "..", "/", "//", "a.", ".a",
 		"1", "-1", "-0", "1-", "-1--2", "1--", "1,,2", "1-2-3", "x", "1x", "1-2x", "1-2x0", "%d", "%", "$F", "$", "<UDIM", "%(UDIM)",
 		"foo.1.2.3.exr", "foo1", "foo-1.exr", "foo.-1.exr", "foo.0001-0010#.exr", "a b.1 - 5 #.exr", "%04d", "name.%d%d.ext",
-		"+5", "+0010", "+0", "+1-10", "1-+5", "1-5x+2", "/a/f.+5#.exr", "🎬.1-3#.exr", "a/b/../c.1@.x", "\x00.1#", "{{.}}", "{{", "}}"}
+		"1-10,5-5x0", "7,7-7x0", "-5-5,-3--3:0", "--5.exr", "--5", "--", "---1.x", "/d/--12", "+5", "+0010", "+0", "+1-10", "1-+5", "1-5x+2", "/a/f.+5#.exr", "🎬.1-3#.exr", "a/b/../c.1@.x", "\x00.1#", "{{.}}", "{{", "}}"}
 	for _, c := range corpus {
 		emit("fuzz " + hx(c))
 	}
